@@ -23,7 +23,12 @@ pub enum Violation {
     VariantSeqClash(Vec<(bool, String)>, usize, usize),
     UndefinedNonterminal(String, usize),
     UndefinedTerminal(String, usize),
+    /// The enumeration was cut off (more than `MAX_LISTED` violations, e.g. thousands of equally named
+    /// variants give millions of clashing pairs): the list is incomplete, callers must not decide on it.
+    TooMany,
 }
+
+pub const MAX_LISTED: usize = 200_000;
 
 impl Violation {
     pub fn kind(&self) -> &'static str {
@@ -39,6 +44,7 @@ impl Violation {
             Violation::VariantSeqClash(..) => "NonterminalEnumVariantSymbolSequenceClash",
             Violation::UndefinedNonterminal(..) => "UndefinedNonterminal",
             Violation::UndefinedTerminal(..) => "UndefinedTerminal",
+            Violation::TooMany => "TooMany",
         }
     }
 }
@@ -129,6 +135,10 @@ pub fn violations(items: &[RItem]) -> Vec<Violation> {
                 for (i, (vn, fs)) in variants.iter().enumerate() {
                     upper(vn, &mut v);
                     check_fieldset(fs, &mut v);
+                    if v.len() > MAX_LISTED {
+                        v.push(Violation::TooMany);
+                        return v;
+                    }
                     for (wn, ws) in variants.iter().take(i) {
                         if wn.name == vn.name {
                             v.push(Violation::VariantNameClash(vn.name.clone(), wn.pos, vn.pos));
@@ -149,6 +159,10 @@ pub fn violations(items: &[RItem]) -> Vec<Violation> {
     }
     let defs: Vec<&RIdent> = nt_names.iter().chain(term_variants.iter()).chain(term_enum_names.iter()).copied().collect();
     for (i, a) in defs.iter().enumerate() {
+        if v.len() > MAX_LISTED {
+            v.push(Violation::TooMany);
+            return v;
+        }
         for b in defs.iter().take(i) {
             if a.name == b.name && a.pos != b.pos {
                 v.push(Violation::NameClash(a.name.clone(), a.pos.min(b.pos), a.pos.max(b.pos)));
